@@ -114,6 +114,11 @@ func TestTear(t *testing.T) {
 		for atomic.LoadInt32(&stop) == 0 {
 			seq++
 			live.WriteRtpPacket(rtpPacket(seq))
+			if seq%3 == 0 { // the stream has an audio track that the players below do not set up
+				a := rtpPacket(seq)
+				a.Channel = rtp.ChannelAudio
+				live.WriteRtpPacket(a)
+			}
 			time.Sleep(500 * time.Microsecond)
 		}
 	}()
